@@ -138,8 +138,8 @@ func doRun(cs *Case) J {
 		res["sbytes"] = base64.StdEncoding.EncodeToString(s0)
 	}
 	if cs.WantOracle {
-		res["oc"] = oracleHalf(c0, true, cs.BodyLimit)
-		res["os"] = oracleHalf(s0, false, cs.BodyLimit)
+		res["oc"] = oracleHalf(c0, true)
+		res["os"] = oracleHalf(s0, false)
 	}
 	return res
 }
